@@ -148,7 +148,14 @@ fn live_in_log(log: &SharedLog, node: usize, peer: &PeerId) -> BTreeSet<u64> {
 
 impl<B: Probes + HasLists> Ext<B> for ListExt {
     fn op(&mut self, w: &mut World<B>, m: &[NodeModel], node: usize, kind: u8, arg: u8) {
-        let p = gen::peer(arg as usize % 8);
+        // arg 0..8: a pool peer; arg 8..16: one of the peers this node currently has an established connection or a
+        // pending dial to (falls back to the pool peer when there is none)
+        let live: Vec<PeerId> = {
+            let mut v: BTreeSet<PeerId> = m[node].est.keys().cloned().collect();
+            v.extend(m[node].ids.values().filter(|x| x.handed_out && x.terminal.is_empty() && x.outbound).filter_map(|x| x.expected));
+            v.into_iter().collect()
+        };
+        let p = if arg >= 8 && !live.is_empty() { live[(arg as usize - 8) % live.len()] } else { gen::peer(arg as usize % 8) };
         // map the op kind onto the lists this behaviour has
         let kind = match (self.has_block, self.has_allow) {
             (true, false) => kind % 2,
@@ -338,7 +345,7 @@ fn strategy(max_ops: usize) -> BoxedStrategy<ACase> {
         // few peers blocked, most peers allowed at the start
         proptest::collection::vec((any::<u8>(), any::<u8>(), any::<u8>()).prop_map(|(a, b, c)| a & b & c), 3),
         proptest::collection::vec((any::<u8>(), any::<u8>(), any::<u8>()).prop_map(|(a, b, c)| a | b | c), 3),
-        life::case_strategy_ext(3, 1..=1, 1, 4..=max_ops, w, 9, 4, 8),
+        life::case_strategy_ext(3, 1..=1, 1, 4..=max_ops, w, 9, 4, 16),
     )
         .prop_map(|(mode, blocked, allowed, base)| ACase { mode, blocked, allowed, base })
         .boxed()
@@ -350,7 +357,7 @@ pub fn run(ctx: &mut Ctx) {
     let max_ops = ctx.tier.sel(50, 70);
     ctx.check::<ACase>(
         "world",
-        "programs of 4..50 world ops (dials with/without peer id in both directions, swarm-to-swarm connects, phantom inbound connections, transport outcomes, closes, block/unblock/allow/disallow of the 8 pool peers, generated schedules) over 1..3 swarms whose behaviour is #[derive(NetworkBehaviour)] {block, probe} / {allow, probe} / {probe, block, allow} with generated initial lists; oracle: no ConnectionEstablished (FromSwarm at the probe, SwarmEvent) for a peer that is blocked / not allowed when it is reported; at quiescence every connection that existed when its peer became blocked / disallowed has been closed and is_connected(p) is false for every forbidden p; non-trivial = a peer became forbidden while a connection to it was established or a dial to it pending; distinct by case hash",
+        "programs of 4..50 world ops (dials with/without peer id in both directions, swarm-to-swarm connects, phantom inbound connections, transport outcomes, closes, block/unblock/allow/disallow of the 8 pool peers (half of the time aimed at a peer with a live connection or pending dial), generated schedules) over 1..3 swarms whose behaviour is #[derive(NetworkBehaviour)] {block, probe} / {allow, probe} / {probe, block, allow} with generated initial lists; oracle: no ConnectionEstablished (FromSwarm at the probe, SwarmEvent) for a peer that is blocked / not allowed when it is reported; at quiescence every connection that existed when its peer became blocked / disallowed has been closed and is_connected(p) is false for every forbidden p; non-trivial = a peer became forbidden while a connection to it was established or a dial to it pending; distinct by case hash",
         ctx.n(40_000, 1_200_000),
         &move || strategy(max_ops),
         &check,
